@@ -65,6 +65,9 @@ pub fn pool() -> Vec<Template> {
         t("mv {d: reg}, {s: src}", "0x8 @ d @ s", &[Reg, Src]),
         t("mvx {s: src}+{x: u4}", "0x9 @ x @ s", &[Src, Typed('u', 4)]),
         t("mv [{s: src}]", "0x7 @ 0xe @ s", &[Src]),
+        // same literal rule as `ld a, {x}` but written without the blank after the comma: its count of
+        // literal characters must still beat `ld {x}, {y}` whatever the spacing of either rule
+        t("ld a,{x: u8}", "0x1a @ x", &[Typed('u', 8)]),
     ]
 }
 
@@ -340,7 +343,7 @@ pub fn f2_prog(seq: &[usize], items: &[Item], banked: bool) -> Prog {
 pub fn run(ctx: &Ctx) -> Report {
     let mut rep = Report::new(
         "model_checking",
-        "F1: every rule set of 1..k templates from a 31-template pool (prefix-sharing mnemonics, literal/typed/untyped/sub-rule operands, wrappers, glued and suffix literals, tie and smallest-wins pairs, slices, le(), $-relative) x every line of the whole pool (every range boundary, labels before/after, constant, undefined name) + malformed lines; F2: fixed 8-rule set x all item sequences up to a length (labels global/nested, constants, data of several widths, #res/#align/#addr, two banks); each compared (success, bits, symbol values) with the reference assembler. Non-trivial = the reference defines the outcome and the program emits >=1 item or is rejected by the rules; distinct by program text.",
+        "F1: every rule set of 1..k templates from a 32-template pool (prefix-sharing mnemonics, literal/typed/untyped/sub-rule operands, wrappers, glued and suffix literals, tie and smallest-wins pairs, slices, le(), $-relative) x every line of the whole pool (every range boundary, labels before/after, constant, undefined name) + malformed lines; F2: fixed 8-rule set x all item sequences up to a length (labels global/nested, constants, data of several widths, #res/#align/#addr, two banks); each compared (success, bits, symbol values) with the reference assembler. Non-trivial = the reference defines the outcome and the program emits >=1 item or is rejected by the rules; distinct by program text.",
     );
     let pool = pool();
     let opts = Opts::iters(30);
